@@ -38,6 +38,8 @@ RESPS = [
     {"o": "resp", "status": 200, "framing": "close"}, {"o": "resp", "status": 503, "keep": True}, {"o": "resp", "status": 503, "keep": False},
     {"o": "resp", "status": 302, "keep": True, "loc": "/r"}, {"o": "resp", "status": 302, "keep": False, "loc": "/r"}, {"o": "resp", "status": 200, "body_len": 3000, "seg": 700},
     {"o": "resp", "status": 204}, {"o": "resp", "status": 200, "then": "stray"},
+    # responses urllib3 discards itself (redirect / status retry) that have NO body to drain
+    {"o": "resp", "status": 302, "keep": True, "loc": "/r", "body_len": 0}, {"o": "resp", "status": 503, "keep": True, "body_len": 0}, {"o": "resp", "status": 200, "body_len": 0},
 ]
 OUTCOMES = FAULTS_CONNECT + FAULTS_SEND + FAULTS_RECV + RESPS
 RETRIES = [
